@@ -38,7 +38,7 @@ struct Ref {
         std::string out;
         bool sq = false, dq = false;
         size_t i = 0, n = s.size();
-        while (i < n) {
+        while (i < n && (long)out.size() < kMax) {   // nothing past the line-buffer limit is looked at (no side effects either)
             char c = s[i];
             if (c == '\\' && i + 1 < n) {
                 char d = s[i + 1];
@@ -221,6 +221,8 @@ struct Interp {
         }
         for (char e : std::string("nrtbfave\\x")) if (in.find(std::string("\\") + e) != std::string::npos) ctx.label(std::string("escape:\\") + e);
         if (in.find("'") != std::string::npos && (in.find('$') != std::string::npos || in.find('~') != std::string::npos)) ctx.label("single-quote-x-construct");
+        { size_t a = in.find('\''), b = a == std::string::npos ? a : in.find('\'', a + 1); if (b != std::string::npos && in.substr(a, b - a).find('"') != std::string::npos && in.find('~', b) != std::string::npos) ctx.label("double-quote-inside-single-quotes-then-tilde"); }
+        if ((in.find("(K ") != std::string::npos || in.find("(K)") != std::string::npos || in.find("(Key2") != std::string::npos)) ctx.label("keys-differing-only-in-case");
         if (in.find('"') != std::string::npos && (in.find('$') != std::string::npos || in.find('~') != std::string::npos)) ctx.label("double-quote-x-construct");
         if (in.find("%get(%get(") != std::string::npos || in.find("%put(k %get(") != std::string::npos) ctx.label("nested-call");
         if (in.find("%put(") != std::string::npos) ctx.label("put");
@@ -246,7 +248,7 @@ rc::Gen<std::string> gen_escape() { return rc::gen::exec([]() { return std::stri
 rc::Gen<std::string> gen_call() {
     return rc::gen::exec([]() {
         int k = (int)*range(0, 9);
-        std::string key = *rc::gen::elementOf(std::vector<std::string>{"k", "k", "key2", "x"});
+        std::string key = *rc::gen::elementOf(std::vector<std::string>{"k", "k", "key2", "x", "K", "Key2"});   // the store is case-sensitive
         std::string val = *rc::gen::elementOf(std::vector<std::string>{"v1", "v2", "other", "k"});
         if (k < 3) return "%put(" + key + " " + val + ")";
         if (k < 6) return "%get(" + key + ")";
@@ -266,7 +268,7 @@ rc::Gen<std::string> gen_value() {
             else if (k < 6) s += *gen_escape();
             else if (k == 6) s += "~";
             else if (k < 9) s += *gen_envref();
-            else if (k == 9) { s += "'"; long m = *range(0, 3); for (long j = 0; j < m; j++) { int q = (int)*range(0, 4); s += q == 0 ? *gen_plain(5) : q == 1 ? std::string("~") : q == 2 ? *gen_envref() : q == 3 ? std::string("\\n") : std::string("\\'"); } s += "'"; }
+            else if (k == 9) { s += "'"; long m = *range(0, 3); for (long j = 0; j < m; j++) { int q = (int)*range(0, 5); s += q == 0 ? *gen_plain(5) : q == 1 ? std::string("~") : q == 2 ? *gen_envref() : q == 3 ? std::string("\\n") : q == 4 ? std::string("\"") : std::string("\\'"); } s += "'"; if (*range(0, 1)) s += " ~ $VT_A "; }
             else if (k == 10) { s += "\""; long m = *range(0, 3); for (long j = 0; j < m; j++) { int q = (int)*range(0, 3); s += q == 0 ? *gen_plain(5) : q == 1 ? std::string("~") : q == 2 ? *gen_envref() : *gen_escape(); } s += "\""; }
             else if (k < 13) s += *gen_call();
             else { long rep = *range(0, 30) == 0 ? *range(9000, 21000) : *range(1, 300); s += std::string((size_t)rep, 'p'); }
@@ -293,7 +295,7 @@ rc::Gen<Case> gen_safe() {
     return rc::gen::exec([]() {
         Case c;
         long populated = *range(0, 1);
-        static const std::vector<std::string> bits = {"$", "${", "$(", "}", ")", "%", "%get(", "%put(", "%get(k", "%put(k v", "%exec(", "%random(a b)", "%dirscan(/nonexistent)", "\\", "'", "\"", "~", "`", "a", " ", "VT_A", "%%", "%x", "$VT_A", "${VT_A", "%appname()", "%version (", "%GET(k)"};
+        static const std::vector<std::string> bits = {"$", "${", "$(", "}", ")", "%", "%get(", "%put(", "%get(k", "%put(k v", "%exec(", "%random(a b)", "%dirscan(/nonexistent)", "\\", "'", "\"", "~", "`", "a", " ", "VT_A", "%%", "%x", "$VT_A", "${VT_A", "%appname()", "%version (", "%GET(k)", "%e(x)", "%ex(touch m)", "%exe(", "%g(k)", "%pu(k v)"};
         std::string s;
         long n = *sized_len(14);
         for (long i = 0; i <= n; i++) s += *rc::gen::elementOf(bits);
